@@ -322,6 +322,15 @@ func (g *frameGen) frame(kind string, vpn bool) ([]byte, string) {
 		case c == 6:
 			pl := []byte{0, 1, 3, 5, 16, 120, 124, 128, 255}[rng.Intn(9)]
 			return g.eth(0x0806, g.arpBody(1, 0x0800, 6, pl, rng.Intn(300))), "arp-plen"
+		case c == 13 && rng.Intn(2) == 0:
+			// both sizes odd at once, incl. pairs that keep the body at the Ethernet/IPv4 length of 28
+			// (2*hlen + 2*plen = 20) and exact-fit bodies
+			hl := byte(rng.Intn(11))
+			pl := byte(10 - int(hl))
+			if rng.Intn(3) == 0 {
+				hl, pl = byte(rng.Intn(20)), byte(rng.Intn(20))
+			}
+			return g.eth(0x0806, g.arpBody(1, 0x0800, hl, pl, 2*int(hl)+2*int(pl)+rng.Intn(2)*rng.Intn(30))), "arp-sizes"
 		case c == 7:
 			// incl. types whose low byte is 1: gopacket's ARP.AddrType keeps only that byte (D18)
 			return g.eth(0x0806, g.arpBody([]uint16{uint16(rng.Intn(40)), 0x0101, 0x8001, 0x0100, 0xff01}[rng.Intn(5)], 0x0800, 6, 4, 20)), "arp-htype"
